@@ -176,12 +176,14 @@ class World:
                     pass
                 elif isinstance(obj, ValueError) and value_error_reason(text):
                     pass
+                elif isinstance(obj, RecursionError) and gen.bracket_depth(text) >= gen.DEEP_NESTING:
+                    st["fault.parse_aborted_by_recursion_limit"] += 1   # nesting is not bounded: allowed
                 else:
                     fs.append(Finding("C10", {"clause": "closed-errors", "exc": got[1]},
                                       f"parse({text!r}) raised {got[1]}: {got[2]}"))
             else:
                 st["parse_ok"] += 1
-                probs = trees.audit(obj, payload=False)
+                probs = trees.audit(obj, max_nodes=20000, payload=False)
                 if probs:
                     fs.append(Finding("C10", {"clause": "well-formed", "what": probs[0][:40]},
                                       f"parse({text!r}) returned a malformed tree: {probs[0]}"))
@@ -423,6 +425,9 @@ class ParserSim:
                     for _ in range(rng.randint(1, 2)):
                         s = gen.mutate(rng, s)
                     pool.append(s)
+                elif rng.random() < 0.12:
+                    # nesting beyond the recursion limit: a parse that dies with RecursionError half-way
+                    pool.append(gen.deep_nested(rng))
                 else:
                     k = rng.randint(2, 60)
                     pool.append("(" * k + "x" + ")" * rng.choice([k, k - 1, k + 1]))
@@ -590,9 +595,10 @@ class ParserSim:
     def assumptions(self, prop):
         return ["a fresh ExpressionParser() is history-free (it is the reference model)",
                 "the harness never mutates trees or Token objects returned by the parser",
-                "ordinary texts are <= ~100 characters with nesting <= 60; flat chains are explored up to 650 terms for "
-                "sums and 450 factors for products/quotients (the pinned parser's right-recursive parse_mult itself "
-                "raises RecursionError from ~990 chained factors; not explored, see DESIGN 12.13)",
+                "ordinary texts are <= ~100 characters with nesting <= 60; flat chains are explored up to 1500 terms / "
+                "factors for every operator (the pinned parser's right-recursive parse_mult raised RecursionError from "
+                "~990 chained factors: repaired in /repo, DESIGN 12.15); bracket nesting of 400 and 1500 levels is "
+                "explored as a failing call (RecursionError is allowed from nesting depth 100, never below)",
                 "sampling: a clean batch is evidence, not proof"]
 
 
